@@ -331,6 +331,8 @@ def make_source(ctx, name, items, spec, side):
     """Build the double for one side: 'a' = library under test (flavour from
     the spec), 's' = stdlib reference (always the logging sync iterator)."""
     if side == "s":
+        if (spec or {}).get("fl") == "list" and (spec or {}).get("mutable"):
+            return ListSource(ctx, name, items, spec)  # the consumer mutates this very list while iterating
         if (spec or {}).get("fl") in ("tuple", "tuplesub") and not (spec or {}).get("fault"):
             # what the stdlib does with a tuple (subclass) argument depends on its type
             return _SRC_CLASSES[spec["fl"]](ctx, name, items, spec)
